@@ -240,6 +240,13 @@ def k256_uncompressed(ctx, f):
 
 def secp_uncompressed(ctx, f):
     an = ctx.an(f)
+    # slice-pattern form: `let [_tag, rest @ ..] = self.serialize_uncompressed(); rest` (a [u8; 64] by type)
+    from rules.c01 import ret_exprs
+    rs = ret_exprs(an)
+    if len(rs) == 1 and f.output and f.output.get("k") == "array" and f.output.get("n") == 64:
+        e = strip(rs[0][2])
+        if e.k == "subslice" and e.a[1] == 1 and ((e.a[2] == 65 and not e.a[3]) or (e.a[2] == 0 and e.a[3])) and P.match(e.a[0], P.call(name="serialize_uncompressed", args=[P.param(1)])) is not None:
+            return True, ""
     buf = ret_buffer(an, f)
     if buf is None:
         return False, "does not return a local array"
@@ -361,3 +368,16 @@ def constructors(ctx, report):
         report.check("ACCESS", "node_id()", ok, "node_id() returns the stored field", "node_id() does not return the stored node_id field", fn=f.path, sp=f.span, config=cfg)
     else:
         report.violate("ACCESS", "node_id()", "anchor Enr::node_id not found", config=cfg)
+
+
+_own_run = run
+
+
+def run(ctx, report):
+    _own_run(ctx, report)
+    from common import Only
+    from rules import c05, c06
+    # the id of a record belongs to the key in its own content also after a *failed* update (atomicity) and for every build (key stored last)
+    c06.run(ctx, Only(report, {"ATOMIC": "ATOMIC"}))
+    c05.build_rule(ctx, Only(report, {"BUILD": "KEYED-BUILD"}))
+
